@@ -1,4 +1,4 @@
-SPECIFICATION Spec
+SPECIFICATION MCSpec
 CONSTANTS
   Nib = {0, 1}
   KeyLen = 2
